@@ -19,6 +19,9 @@ def base_cases(tier, rng, both_modes=True, tol_only=False, strict_only=False, n_
     for s in gen.exhaustive(gen.ATOMS_E, 3):
         for tol in modes:
             yield {'tol': tol, 'ctx': gen.CONTEXTS['E'], 's': s}
+    if True in modes:
+        for s in gen.exhaustive(gen.ATOMS_F, 3):
+            yield {'tol': True, 'ctx': gen.CONTEXTS['F'], 's': s}
     for name in ['A', 'B', 'C', 'default']:
         atoms = gen.atoms_for(name)
         for s in gen.exhaustive(atoms, k_def if name != 'default' else k_def):
